@@ -148,7 +148,7 @@ class _Redis(Backend):
                 return False
             wait -= step
             await asyncio.sleep(step)
-        return True
+        return await self.exists(key)
 
     async def unlock(self, key: Key, value: Value) -> bool:
         if self._sha.get("UNLOCK") is None:
